@@ -126,7 +126,8 @@ def _run(ctx: Ctx) -> None:
                 declared = server.methods[meth].params_schema
                 behs = BEHS if exp["invoke"] else [BEHS[(ci + len(path)) % 3]]
                 for beh in behs:
-                    for vi in range(nvar if beh == "ok" or not exp["invoke"] else 1):
+                    many = nvar if len(sig) <= 2 else 1        # 3-parameter signatures: one concrete variant per path
+                    for vi in range(many if beh == "ok" or not exp["invoke"] else 1):
                         v = 3 * ci + 5 * vi + len(path)
                         conc = A.concretise(case, declared, v)
                         body = world.raw_request(meth.encode(), conc["batch"].schema, batch=conc["batch"])
